@@ -42,7 +42,8 @@ CAPS = ['cap_chown', 'cap_dac_override', 'cap_dac_read_search', 'cap_fowner', 'c
 
 
 def bounds(tier):
-    return {'permission_values': 4096, 'disk_types': ['f', 'd', 'p', 's'] + ['l', 'c', 'b'], 'zip_type_nibbles': 7, 'capabilities': len(CAPS)}
+    return {'permission_values': 4096, 'disk_types': ['f', 'd', 'p', 's'] + ['l', 'c', 'b'], 'zip_type_nibbles': 7, 'capabilities': len(CAPS),
+            'capability_pairs': tier == 'thorough', 'content_lengths': len(content_lengths(tier))}
 
 
 def b(v):
